@@ -17,7 +17,7 @@ import checks as CFG  # noqa: E402
 ENV = dict(os.environ, GOFLAGS="-mod=mod", GOPROXY="off", GOSUMDB="off", GOTOOLCHAIN="local")
 SYMGO = os.path.join(ROOT, "bin", "symgo")
 HARNESS_DIR = os.path.join(ROOT, "harness")
-REPO = "/repo"
+REPO = os.environ.get("VERIF_REPO", "/repo")  # VERIF_REPO: run against another checkout (mutant triage); registered commands use /repo
 
 
 def log(*a):
@@ -38,6 +38,18 @@ def ensure_symgo():
         if r.returncode != 0:
             log(r.stderr)
             raise SystemExit(inconclusive_exit("-", "engine does not build"))
+
+
+def private_harness(work):
+    """With VERIF_REPO set, the harness module is copied and pointed at that checkout."""
+    global HARNESS_DIR
+    if REPO == "/repo":
+        return
+    dst = os.path.join(work, "harness")
+    shutil.copytree(os.path.join(ROOT, "harness"), dst)
+    gm = open(os.path.join(dst, "go.mod")).read().replace("=> /repo", "=> " + REPO)
+    open(os.path.join(dst, "go.mod"), "w").write(gm)
+    HARNESS_DIR = dst
 
 
 def make_overlay(work):
@@ -226,10 +238,11 @@ def main():
     tier = args.tier if args.tier in ("quick", "thorough") else "quick"
     spec = CFG.CHECKS[pid]
     t0 = time.time()
-    work = os.path.join(ROOT, ".work", f"{pid}-{tier}")
+    work = os.path.join(ROOT, ".work", f"{pid}-{tier}" + ("" if REPO == "/repo" else "-" + os.path.basename(REPO)))
     shutil.rmtree(work, ignore_errors=True)
     os.makedirs(work, exist_ok=True)
     ensure_symgo()
+    private_harness(work)
     overlay = make_overlay(work)
     hs = [h for h in spec["harnesses"] if tier in h.get("tiers", ("quick", "thorough"))]
     if args.only:
@@ -381,9 +394,10 @@ def main():
         "wall_s": round(wall, 1),
         "violations": len(violations),
     }
-    os.makedirs(os.path.join(ROOT, "evidence"), exist_ok=True)
-    json.dump(ev, open(os.path.join(ROOT, "evidence", pid + ".json"), "w"), indent=1)
-    validate_evidence(os.path.join(ROOT, "evidence", pid + ".json"))
+    evdir = os.path.join(ROOT, "evidence") if REPO == "/repo" else work
+    os.makedirs(evdir, exist_ok=True)
+    json.dump(ev, open(os.path.join(evdir, pid + ".json"), "w"), indent=1)
+    validate_evidence(os.path.join(evdir, pid + ".json"))
 
     for r in results:
         log(f"  {r['display']}: paths={r['paths']} ok={r.get('ok_paths')} decisions={r['decisions']} queries={r['queries']} "
